@@ -56,11 +56,17 @@ def check_pvv(pin, key_hex, index, pan, via_objects=True):
     if via_objects:
         try:
             a = pinblock.Iso0TDESPinBlockWithVisaPVV(pin=pin, card_number=pan).to_pvv(pvv_key=key_hex, key_index=index)
-            b = pinblock.Iso4AESPinBlockWithVisaPVV(pin=pin, random_value=1).to_pvv(pvv_key=key_hex, key_index=index, card_number=pan)
+            # a format-4 block carries no card number of its own: one object answers for whatever PAN each call names
+            obj = pinblock.Iso4AESPinBlockWithVisaPVV(pin=pin, random_value=1)
+            other = pan[::-1]
+            first = obj.to_pvv(pvv_key=key_hex, key_index=index, card_number=other)
+            if first != ref_pvv(pin, key_hex, index, other)[0]:
+                return 'to_pvv-differs', f'to_pvv (format 4) gives {first!r} for PAN {other!r}, Visa PVV is {ref_pvv(pin, key_hex, index, other)[0]!r} for {desc}'
+            b = obj.to_pvv(pvv_key=key_hex, key_index=index, card_number=pan)
         except Exception as ex:
             return exc_sig('to_pvv-raises', ex), f'to_pvv raised {ex!r} for {desc}'
         if a != want or b != want:
-            return 'to_pvv-differs', f'to_pvv gives {a!r} (format 0) / {b!r} (format 4), Visa PVV is {want!r} for {desc}'
+            return 'to_pvv-differs', f'to_pvv gives {a!r} (format 0) / {b!r} (format 4, same object asked for another PAN before), Visa PVV is {want!r} for {desc}'
     return None
 
 
